@@ -137,6 +137,11 @@ func H_C08_runtime() {
 	vrtAssert(r == nil, "failed call returns nil")
 	vrtAssert(c >= 0, "exactly one category")
 	vrtAssert(c >= 3, "a compiled expression reported a static category (syntax, arity, unknown function)")
+	// the category is the one the specification names for the fault
+	_, ec := refSearch(expr, doc)
+	if ec != ecUnspecified && ec != ecNone {
+		vrtAssert(ecOfError(err) == ec, "run-time fault reported with the wrong category: want "+ecNames[ec])
+	}
 	vrtReach("error")
 }
 
